@@ -23,8 +23,13 @@ class K:
     kind = "kani"
 
     def __init__(self, group, name, *, timeout=1500, mem_gb=10, functions=(), bounds="", expect="pass",
-                 rules="fs", notes="", panic_ok=()):
+                 rules="fs", notes="", panic_ok=(), lean=False, covers="all"):
         self.group = group
+        # lean: Kani's automatic memory-safety / overflow / reachability checks are switched off
+        # for this harness (only the harness's own assertions, the crate's panics and the
+        # unwinding assertions are decided); recorded in the evidence as part of the claim.
+        self.lean = lean
+        self.covers = covers  # "all": every kani::cover! must be satisfied; "any": at least one
         self.name = name
         self.tiers = ("quick", "thorough")
         self.timeout = timeout
@@ -107,14 +112,10 @@ for n, b in [("kfs_selftest", "KFS fabrication of Metadata/paths re-validated th
              ("raw_collect_a_temp", "listing {ka, .kismet_temp/}"), ("raw_collect_a_app", "listing {ka, .p}"),
              ("raw_collect_empty_temp", "listing {.kismet_temp/}; missing directory"),
              ("raw_apply_update_evict_a_moveback_b", "plan evict [ka] move back [kb]; either may have vanished"),
-             ("raw_apply_update_moveback_a_b", "plan move back [ka, kb]; ka may have vanished"),
-             ("raw_apply_update_chain_sym", "plan evict [ka], move back [kb, kc]; kb may have vanished"),
-             ("raw_apply_update_chain_gone", "plan evict [ka], move back [kb, kc]; kb has vanished"),
              ("raw_prune_pieces_dotfile_only", "collect + capacity-0 plan + apply_update on {.p}"),
              ("raw_prune_pieces_dotfile_and_a", "collect + capacity-0 plan + apply_update on {ka, .p}")]:
     unit(K("raw_ops", n, functions=RAW, bounds=b, timeout=1500, mem_gb=16 if ("ab_sub" in n or "and_a" in n) else 10))
 unit(K("raw_ops", "raw_ops_sanity_twin", functions=RAW, expect="fail", timeout=900))
-unit(K("raw_ops", "exp_tempfile_after_symbolic_inodes", functions=RAW, timeout=900))
 
 # ---- plain cache ----------------------------------------------------------------------------------
 for n in ["plain_get_seq", "plain_get_env", "plain_get_fault", "plain_touch_seq", "plain_touch_env", "plain_touch_fault",
@@ -147,11 +148,11 @@ unit(K("sharded_ops", "sharded_ops_sanity_twin", functions=SHARDED, expect="fail
 
 # ---- stacked caches --------------------------------------------------------------------------------------
 _root = os.path.dirname(os.path.dirname(os.path.dirname(os.path.abspath(__file__))))
-STACK_NAMES = re.findall(r"stack_harness!\((\w+),", open(os.path.join(_root, "harness", "stack_ops.rs")).read())
+STACK_NAMES = re.findall(r"stackc?_harness!\((\w+),", open(os.path.join(_root, "harness", "stack_ops.rs")).read())
 for n in STACK_NAMES:
     unit(K("stack_ops", n, functions=STACK, timeout=3000, mem_gb=(18 if ("gou" in n or "ensure" in n or "temp" in n or "set_w1" in n or "put_w1" in n) else 10),
            bounds="per level: key absent / value A / value B; populate outcome {value, NotFound, other error}; judge answer any",
-           panic_ok=("auto_sync failed, and failure semantics are unclear",) if "fault" in n else ()))
+           panic_ok=("auto_sync failed, and failure semantics are unclear",) if "fault" in n else (), covers="any"))
 unit(K("stack_ops", "stack_ops_sanity_twin", functions=STACK, expect="fail", timeout=2400, mem_gb=10))
 
 unit(K("readonly_ops", "readonly_builder_equiv", functions=["readonly::ReadOnlyCacheBuilder::{new,plain,byte_equality_checker,take,build}"],
